@@ -1,5 +1,6 @@
 import KafVerif.Model.AclGate
 import KafVerif.Model.AclSession
+import KafVerif.Model.AclConn
 import KafVerif.Gen.C24Guards
 /-!
 C24 — With ACLs on, unauthorized requests change nothing and leak nothing.
@@ -30,6 +31,18 @@ Session model (`Model/AclSession.lean`: ONE handler, many requests, several prin
 * `session_perItem_denied_untouched`  … per-item gate: a resource whose items `allows cfg` denies keeps its value
 * `memoised_decisions_violate`  a handler that memoises decisions under `action|resource|principal|name` does NOT
                              have the property (alice + `orders-x|secret`, then `alice|orders-x` + `secret`)
+
+Connection model (`Model/AclConn.lean`: `buildConnContextFunc`, `principalFromContext`, one handler, several connections):
+* `principal_depends_only_on_request_and_conn`  for EVERY broker configuration (principal source, PROXY protocol), EVERY
+                             connection the broker serves and EVERY history of client ids of earlier requests on it, the
+                             principal of the next request is `principalSpec cfg attrs clientId` — a function of the
+                             configuration, the connection's immutable attributes and THAT request's client id
+* `principal_history_independent`  two histories on a connection give the same principal for the same client id
+* `conn_decision_depends_only_on_request_and_conn`  one handler, several connections, any interleaved history: the
+                             decision of a request is `Acl.allows cfg` for `principalSpec` of ITS connection and client id
+* `conn_session_denied_noop` … and a request whose items that principal may not touch leaves the store unchanged
+* `sticky_principal_violates`  writing the derived principal back into the connection's ConnContext ("resolve once per
+                             connection") does NOT have the property (PROXY protocol on, source client_id)
 -/
 namespace KafVerif.AclGate
 
@@ -381,5 +394,256 @@ def gOther : GReq := ⟨"alice|orders-x".toList, "produce".toList, "topic".toLis
 example : (runG (init cfgAlice, [(7, 5)]) [gAlice]).2 = [(7, 5), (1, 1)] := by decide
 example : (stepG (runG (init cfgAlice, [(7, 5)]) [gAlice]) gOther).1.2 = [(7, 5), (1, 1)]
     ∧ (stepG (runG (init cfgAlice, [(7, 5)]) [gAlice]) gOther).2 = [.denied] := by decide
+
+end KafVerif.C24
+
+/-! ## which principal a request is authorised as: connections (Model/AclConn) -/
+
+namespace KafVerif.AclConn
+open KafVerif KafVerif.GoStr KafVerif.Acl KafVerif.AclGate KafVerif.AclSession
+
+theorem set_same {α : Type} (l : List α) (i : Nat) (c : α) (h : l[i]? = some c) : l.set i c = l := by
+  induction l generalizing i with
+  | nil => rfl
+  | cons x rest ih =>
+    cases i with
+    | zero => simp at h; simp [h]
+    | succ j => simp at h; simp [ih j h]
+
+theorem connRun_connStep (c : ConnResult) (hist : List (Option (List Char))) : connRunWith connStep c hist = c := by
+  induction hist generalizing c with
+  | nil => rfl
+  | cons x rest ih => simp only [connRunWith, List.foldl_cons, connStep] at *; exact ih c
+
+theorem lower_consts : clientIdStr.map lowerAscii = clientIdStr ∧ remoteAddrStr.map lowerAscii = remoteAddrStr
+    ∧ proxyAddrStr.map lowerAscii = proxyAddrStr := by decide
+
+/-- `principalFromContext` over what `buildConnContextFunc` attached = the property's reading -/
+theorem principal_of_build (cc : ConnCfg) (a : ConnAttrs) (cid : Option (List Char))
+    (hacc : buildConn cc a ≠ .refused) :
+    principalFromContext (infoOf (buildConn cc a)) cid = principalSpec cc a cid := by
+  obtain ⟨hc, hr, hp⟩ := lower_consts
+  have hne1 : remoteAddrStr ≠ proxyAddrStr := by decide
+  have hne2 : clientIdStr ≠ remoteAddrStr := by decide
+  have hne3 : clientIdStr ≠ proxyAddrStr := by decide
+  have hne4 : proxyAddrStr ≠ remoteAddrStr := by decide
+  have hne5 : remoteAddrStr ≠ clientIdStr := by decide
+  have hne6 : proxyAddrStr ≠ clientIdStr := by decide
+  unfold buildConn principalSpec peerAddr proxyOn at *
+  simp only [equalFold, hc, hr, hp] at *
+  generalize (sourceOf cc).map lowerAscii = src at *
+  by_cases h1 : src = remoteAddrStr
+  · subst h1
+    cases hpp : cc.proxyProtocol <;> cases hx : a.proxy <;> (try (rename_i s; by_cases hs : s = [])) <;>
+      simp_all [principalFromContext, infoOf] <;> (try (split <;> simp_all))
+  · by_cases h2 : src = proxyAddrStr
+    · subst h2
+      cases hpp : cc.proxyProtocol <;> cases hx : a.proxy <;> (try (rename_i s; by_cases hs : s = [])) <;>
+        simp_all [principalFromContext, infoOf] <;> (try (split <;> simp_all))
+    · by_cases h3 : src = clientIdStr
+      · subst h3
+        cases hpp : cc.proxyProtocol <;> cases hx : a.proxy <;> (try (rename_i s; by_cases hs : s = [])) <;>
+          simp_all [principalFromContext, infoOf, trimSpace_idem_nil] <;> (try (split <;> simp_all))
+      · cases hpp : cc.proxyProtocol <;> cases hx : a.proxy <;> (try (rename_i s; by_cases hs : s = [])) <;>
+          simp_all [principalFromContext, infoOf, trimSpace_idem_nil] <;> (try (split <;> simp_all))
+
+
+/-- a connection is refused exactly when a PROXY header is required and missing / malformed -/
+theorem refused_iff (cc : ConnCfg) (a : ConnAttrs) : buildConn cc a = .refused ↔ accepted cc a = false := by
+  obtain ⟨hc, hr, hp⟩ := lower_consts
+  unfold buildConn accepted proxyOn
+  simp only [equalFold, hc, hp]
+  generalize (sourceOf cc).map lowerAscii = src
+  cases hpp : cc.proxyProtocol <;> cases hx : a.proxy <;> by_cases h2 : src = proxyAddrStr <;>
+    by_cases h3 : src = clientIdStr <;> simp_all <;> (repeat' split) <;> simp_all
+
+theorem stepC_conns (s : State × List ConnResult) (r : CReq) : (stepC s r).1.2 = s.2 := by
+  unfold stepC stepCWith
+  split
+  · rfl
+  · rfl
+  · rename_i c _ hc
+    simp only [connStep]
+    exact set_same _ _ _ hc
+
+theorem stepC_authorizer (s : State × List ConnResult) (r : CReq) : (stepC s r).1.1.authorizer = s.1.authorizer := by
+  unfold stepC stepCWith
+  split
+  · rfl
+  · rfl
+  · simp only [step_authorizer]
+
+theorem runC_inv (s : State × List ConnResult) (hist : List CReq) :
+    (runC s hist).2 = s.2 ∧ (runC s hist).1.authorizer = s.1.authorizer := by
+  unfold runC runCWith
+  induction hist generalizing s with
+  | nil => exact ⟨rfl, rfl⟩
+  | cons r rest ih =>
+    rw [List.foldl_cons]
+    have h := ih (stepCWith connStep s r).1
+    have h1 := stepC_conns s r
+    have h2 := stepC_authorizer s r
+    unfold stepC at h1 h2
+    rw [h1, h2] at h
+    exact h
+
+theorem stepCG_conns (s : (State × Store) × List ConnResult) (r : CGReq) : (stepCG s r).1.2 = s.2 := by
+  unfold stepCG
+  split
+  · rfl
+  · rfl
+  · rename_i c _ hc
+    simp only [connStep]
+    exact set_same _ _ _ hc
+
+theorem stepCG_authorizer (s : (State × Store) × List ConnResult) (r : CGReq) :
+    (stepCG s r).1.1.1.authorizer = s.1.1.authorizer := by
+  unfold stepCG
+  split
+  · rfl
+  · rfl
+  · simp only [stepG_authorizer]
+
+theorem runCG_inv (s : (State × Store) × List ConnResult) (hist : List CGReq) :
+    (runCG s hist).2 = s.2 ∧ (runCG s hist).1.1.authorizer = s.1.1.authorizer := by
+  unfold runCG
+  induction hist generalizing s with
+  | nil => exact ⟨rfl, rfl⟩
+  | cons r rest ih =>
+    rw [List.foldl_cons]
+    have h := ih (stepCG s r).1
+    rw [stepCG_conns, stepCG_authorizer] at h
+    exact h
+
+end KafVerif.AclConn
+
+namespace KafVerif.C24
+open KafVerif KafVerif.GoStr KafVerif.Acl KafVerif.AclGate KafVerif.AclSession KafVerif.AclConn
+
+/-- (13) THE PRINCIPAL OF A REQUEST IS A FUNCTION OF (broker configuration, the connection's immutable attributes,
+THAT request's client id).  For every configuration `cc`, every connection attributes `a` the broker serves, and every
+history `hist` of client ids of EARLIER requests on the same connection, the principal `principalFromContext` derives
+for the next request is `principalSpec cc a cid` — nothing an earlier request carried is remembered. -/
+theorem principal_depends_only_on_request_and_conn (cc : ConnCfg) (a : ConnAttrs) (hacc : accepted cc a = true)
+    (hist : List (Option (List Char))) (cid : Option (List Char)) :
+    (connStep (connRunWith connStep (buildConn cc a) hist) cid).2 = principalSpec cc a cid := by
+  rw [connRun_connStep]
+  have hne : buildConn cc a ≠ .refused := by
+    intro h
+    rw [(refused_iff cc a).mp h] at hacc
+    exact absurd hacc (by decide)
+  exact principal_of_build cc a cid hne
+
+/-- two requests with the same client id on connections with the same attributes get the same principal, whatever
+was sent before on either -/
+theorem principal_history_independent (cc : ConnCfg) (a : ConnAttrs) (hacc : accepted cc a = true)
+    (hist hist' : List (Option (List Char))) (cid : Option (List Char)) :
+    (connStep (connRunWith connStep (buildConn cc a) hist) cid).2
+      = (connStep (connRunWith connStep (buildConn cc a) hist') cid).2 := by
+  rw [principal_depends_only_on_request_and_conn cc a hacc, principal_depends_only_on_request_and_conn cc a hacc]
+
+/-- (14) ONE handler, SEVERAL connections: after ANY history of requests (any connection, any client id, any
+outcome) the decision for a request that arrives on served connection `r.conn` is the pure ACL decision for
+`principalSpec cc a r.clientId`. -/
+theorem conn_decision_depends_only_on_request_and_conn (cfg : Config) (st : State)
+    (hst : st.authorizer = newAuthorizer cfg) (cc : ConnCfg) (attrs : List ConnAttrs) (hist : List CReq) (r : CReq)
+    (a : ConnAttrs) (ha : attrs[r.conn]? = some a) (hacc : accepted cc a = true) :
+    (stepC (runC (st, attrs.map (buildConn cc)) hist) r).2
+      = some (Acl.allows cfg ⟨principalSpec cc a r.clientId, r.action, r.resource, r.name⟩) := by
+  obtain ⟨h1, h2⟩ := runC_inv (st, attrs.map (buildConn cc)) hist
+  have hne : buildConn cc a ≠ .refused := by
+    intro h
+    rw [(refused_iff cc a).mp h] at hacc
+    exact absurd hacc (by decide)
+  have hget : (runC (st, attrs.map (buildConn cc)) hist).2[r.conn]? = some (buildConn cc a) := by
+    rw [h1]; simp [ha]
+  unfold stepC stepCWith
+  split
+  · rename_i hn; rw [hget] at hn; cases hn
+  · rename_i hn; rw [hget] at hn; exact absurd (Option.some.inj hn).symm (fun h => hne h.symm)
+  · rename_i c _ hc
+    rw [hget] at hc
+    cases hc
+    simp only [connStep, step_decision]
+    rw [h2, principal_of_build cc a r.clientId hne]
+    simp only [hst]
+    rfl
+
+/-- (15) the gate behind it: after ANY history on ANY connections, a request on a served connection all of whose
+items the pure ACL decision denies FOR `principalSpec cc a clientId` leaves the store as it is and is answered
+`denied` item by item. -/
+theorem conn_session_denied_noop (cfg : Config) (s0 : State × Store) (h0 : s0.1.authorizer = newAuthorizer cfg)
+    (cc : ConnCfg) (attrs : List ConnAttrs) (hist : List CGReq) (r : CGReq)
+    (a : ConnAttrs) (ha : attrs[r.conn]? = some a) (hacc : accepted cc a = true)
+    (hg : r.g.gran ≠ .none) (hne : r.g.names ≠ [])
+    (hden : ∀ x ∈ r.g.names, Acl.allows cfg ⟨principalSpec cc a r.clientId, r.g.action, r.g.resource, x.2⟩ = false) :
+    (stepCG (runCG (s0, attrs.map (buildConn cc)) hist) r).1.1.2 = (runCG (s0, attrs.map (buildConn cc)) hist).1.2
+      ∧ (stepCG (runCG (s0, attrs.map (buildConn cc)) hist) r).2 = r.g.names.map fun _ => .denied := by
+  obtain ⟨h1, h2⟩ := runCG_inv (s0, attrs.map (buildConn cc)) hist
+  have hnr : buildConn cc a ≠ .refused := by
+    intro h
+    rw [(refused_iff cc a).mp h] at hacc
+    exact absurd hacc (by decide)
+  have hget : (runCG (s0, attrs.map (buildConn cc)) hist).2[r.conn]? = some (buildConn cc a) := by
+    rw [h1]; simp [ha]
+  have hauth : (runCG (s0, attrs.map (buildConn cc)) hist).1.1.authorizer = newAuthorizer cfg := by rw [h2]; exact h0
+  unfold stepCG
+  split
+  · rename_i hn; rw [hget] at hn; cases hn
+  · rename_i hn; rw [hget] at hn; exact absurd (Option.some.inj hn).symm (fun h => hnr h.symm)
+  · rename_i c _ hc
+    rw [hget] at hc
+    cases hc
+    simp only [connStep]
+    rw [principal_of_build cc a r.clientId hnr]
+    exact session_denied_noop cfg (runCG (s0, attrs.map (buildConn cc)) hist).1 hauth []
+      { r.g with principal := principalSpec cc a r.clientId } hg hne hden
+
+/-! the write-back variant ("resolve the identity once per connection") does not have the property -/
+def ccProxyClientId : ConnCfg := { source := [], proxyProtocol := true }
+def attrsLB : ConnAttrs := { remoteAddr := "10.9.9.9:4000".toList, proxy := .addr "10.0.0.1:12345".toList }
+
+/-- (16) PROXY protocol on, principal source `client_id`: after a request of `client-admin`, the request of `client-b`
+on the same connection is authorised as `client-admin`. -/
+theorem sticky_principal_violates :
+    ∃ (cc : ConnCfg) (a : ConnAttrs) (hist : List (Option (List Char))) (cid : Option (List Char)),
+      accepted cc a = true ∧
+      (connStepSticky (connRunWith connStepSticky (buildConn cc a) hist) cid).2 ≠ principalSpec cc a cid :=
+  ⟨ccProxyClientId, attrsLB, [some "client-admin".toList], some "client-b".toList, by decide, by decide⟩
+
+/-! non-vacuity -/
+-- the same history through HEAD's connStep: client-b stays client-b; the ConnContext exists with an empty principal
+example : (connStep (connRunWith connStep (buildConn ccProxyClientId attrsLB) [some "client-admin".toList])
+    (some "client-b".toList)).2 = "client-b".toList := by decide
+example : buildConn ccProxyClientId attrsLB
+    = .ctx { principal := [], remoteAddr := "10.0.0.1:12345".toList, proxyAddr := "10.0.0.1:12345".toList } := by decide
+-- every kind of outcome of buildConn occurs
+example : buildConn { source := [], proxyProtocol := false } attrsLB = .noContext := by decide
+example : buildConn ccProxyClientId { remoteAddr := "10.9.9.9:4000".toList, proxy := .absent } = .refused := by decide
+example : accepted ccProxyClientId { remoteAddr := "10.9.9.9:4000".toList, proxy := .absent } = false := by decide
+example : principalSpec { source := " Proxy_Addr ".toList, proxyProtocol := false } attrsLB (some "x".toList) = "10.0.0.1".toList := by
+  decide
+example : principalSpec { source := "remote_addr".toList, proxyProtocol := false } attrsLB (some "x".toList) = "10.9.9.9".toList := by
+  decide
+example : principalSpec { source := "remote_addr".toList, proxyProtocol := true }
+    { remoteAddr := "10.9.9.9:4000".toList, proxy := .isLocal } none = "10.9.9.9".toList := by decide
+-- a blank address-derived principal falls back to the request's client id
+example : principalSpec { source := "remote_addr".toList, proxyProtocol := false } { remoteAddr := [], proxy := .absent }
+    (some "alice".toList) = "alice".toList := by decide
+example : hostFromAddr "[::1]:9092".toList = "::1".toList ∧ hostFromAddr "alice:1".toList = "alice".toList
+    ∧ hostFromAddr "a:b:1".toList = "a:b:1".toList ∧ hostFromAddr "pipe".toList = "pipe".toList := by decide
+-- two connections on one handler: `b` after `adm` on connection 0 is denied (HEAD); through the write-back variant
+-- it is allowed
+def cfgAdm : Config :=
+  { enabled := true, defaultPolicy := "deny".toList,
+    principals := [{ name := "adm".toList, allow := [⟨"*".toList, "*".toList, "t".toList⟩], deny := [] }] }
+def rq (conn : Nat) (cid : String) : CReq := ⟨conn, some cid.toList, "produce".toList, "topic".toList, "t".toList, 0⟩
+def ccP : ConnCfg := { source := [], proxyProtocol := true }
+def atP : ConnAttrs := { remoteAddr := "x:1".toList, proxy := .isLocal }
+example : (stepC (runC (init cfgAdm, [atP, atP].map (buildConn ccP)) [rq 0 "adm", rq 1 "adm"]) (rq 0 "b")).2 = some false
+    ∧ (stepC (runC (init cfgAdm, [atP, atP].map (buildConn ccP)) [rq 0 "b", rq 1 "b"]) (rq 0 "adm")).2 = some true := by
+  decide
+example : (stepCWith connStepSticky (runCWith connStepSticky (init cfgAdm, [atP].map (buildConn ccP)) [rq 0 "adm"])
+    (rq 0 "b")).2 = some true := by decide
 
 end KafVerif.C24
